@@ -42,8 +42,6 @@ Definition ledger : list (site * lclass) := [
   (mk_site "parser/filter.rs" "convert_color_matrix_kind" KUnwrap "PositiveF32::new(n).unwrap()" 0, Guard _ bound01_positive);
   (mk_site "parser/filter.rs" "convert_component_transfer" KUnwrap "match child.tag_name().unwrap()" 0, Reviewed "children are filtered with is_element()");
   (mk_site "parser/filter.rs" "convert_convolve_matrix" KUnwrap "divisor: NonZeroF32::new(divisor).unwrap()" 0, Guard _ convolve_divisor_guard);
-  (mk_site "parser/filter.rs" "convert_morphology" KUnwrap "let mut radius_x = PositiveF32::new(scale.width()).unwrap()" 0, Guard _ size_components_positive);
-  (mk_site "parser/filter.rs" "convert_morphology" KUnwrap "let mut radius_y = PositiveF32::new(scale.height()).unwrap()" 0, Guard _ size_components_positive);
   (mk_site "parser/image.rs" "convert_inner" KUnwrap "let mut path = Path::new_simple(Arc::new(tiny_skia_path::PathBuilder::from_rect( rect.to_rect(), ))) .unwrap()" 0, Reviewed "PathBuilder::from_rect of a NonZeroRect always yields a non-empty path with a valid bounding box");
   (mk_site "parser/marker.rs" "draw_markers" KIndex "path[i]" 0, Reviewed "`while i < total` with total = path.len() - 1; path is non-empty (tiny_skia_path::Path has at least 2 segments)");
   (mk_site "parser/marker.rs" "calc_vertex_angle" KDebugAssert "debug_assert!(path.len() > 1)" 0, Reviewed "the segment list is built from a tiny_skia_path::Path, which holds at least a MoveTo and one more segment");
